@@ -11,18 +11,19 @@ from hypothesis import strategies as st
 import pendulum
 from vf import oracle_tz as T
 from vf import strategies as S
-from vf.core import Skip, Sub, Violation, req
+from vf.core import Known, Skip, Sub, Violation, req
 
 warnings.simplefilter("ignore")
 US = 10**6
-RULE = ("oracle: reference sequence start.add(unit=k*n) / start.subtract(unit=k*n), k = 0, 1, ... each computed from the start (add() itself is "
-        "checked by C03/C04), cut at the end by comparing instants; plus a closed-form month/year model for naive values")
+RULE = ("oracle: reference sequence start.add(unit=k*n) / start.subtract(unit=k*n), k = 0, 1, ... each computed from the start, cut at the end by "
+        "comparing instants; every value also compared with an independent model that never calls add() (elapsed units move the instant, calendar units "
+        "move the wall clock with day clamping and resolve it on the post-transition side); plus a closed-form month/year model for naive values")
 ASSUMPTIONS = ["cases where comparing a generated value with the end by wall clock and by instant give different answers (same-zone values inside an "
                "overlap) are skipped and counted: the statement's 'not beyond the end' is ambiguous there",
                "for inverted non-absolute intervals 'x in interval' is false for every x (start > end): only the explicit equivalence "
                "x in interval <=> start <= x <= end is asserted there"]
 UNITS = ["years", "months", "weeks", "days", "hours", "minutes", "seconds", "microseconds"]
-ZONES = ["UTC", "Europe/Paris", "America/New_York", "Australia/Lord_Howe", "Asia/Kolkata", "America/Sao_Paulo", "Pacific/Apia", None, None]
+ZONES = ["UTC", "Europe/Paris", "America/New_York", "Australia/Lord_Howe", "Asia/Kolkata", "America/Sao_Paulo", "Pacific/Apia", "Europe/London", "Europe/Lisbon", None, None]
 APPROX = dict(years=365 * 86400, months=30 * 86400, weeks=7 * 86400, days=86400, hours=3600, minutes=60, seconds=1)
 
 
@@ -42,26 +43,59 @@ def wallv(x):
     return T.naive_us(x) if isinstance(x, D.datetime) else inst(x)
 
 
+ELAPSED = dict(hours=3600 * US, minutes=60 * US, seconds=US, microseconds=1)
+
+
+def model_value(s, unit, amount, zone, isdate):
+    """instant (us; ordinal for Date; wall us for naive) of s shifted by `amount` units, or None where the model does not commit (compound transitions)"""
+    if unit in ELAPSED:
+        return inst(s) + amount * ELAPSED[unit]
+    if unit in ("days", "weeks"):
+        dd = amount * (7 if unit == "weeks" else 1)
+        if isdate:
+            return inst(s) + dd
+        w = wallv(s) + dd * 86400 * US
+    else:
+        tm = s.year * 12 + s.month - 1 + amount * (12 if unit == "years" else 1)
+        yy, mm = divmod(tm, 12)
+        if not 1 <= yy <= 9999:
+            return None
+        dd = min(s.day, calendar.monthrange(yy, mm + 1)[1])
+        if isdate:
+            return D.date(yy, mm + 1, dd).toordinal()
+        w = T.naive_us(D.datetime(yy, mm + 1, dd, s.hour, s.minute, s.second, s.microsecond))
+    if not zone:
+        return w
+    return T.expected_construct(w, zone, 1)[1]
+
+
 @st.composite
 def case_strategy(draw, max_steps):
     unit = draw(st.sampled_from(UNITS))
     isdate = unit in ("years", "months", "weeks", "days") and draw(st.integers(0, 3)) == 0
-    y = draw(st.integers(1950, 2050))
+    zone = draw(st.sampled_from(ZONES))
+    y = draw(st.one_of(st.integers(1950, 2050), st.integers(1950, 2050), st.integers(1950, 2050), st.sampled_from([2, 3, 4, 9995, 9996, 9997, 9998])))
     m = draw(st.integers(1, 12))
     d = min(draw(st.sampled_from([1, 15, 28, 29, 30, 31, 31, 30, 29])), calendar.monthrange(y, m)[1])
+    tr = T.transitions(zone) if zone else ()
+    if tr and draw(st.integers(0, 2)) == 0:
+        # start within three weeks of one of the zone's offset changes (either side), so that short sequences cross it
+        w = D.datetime(1970, 1, 1) + D.timedelta(seconds=tr[draw(st.integers(0, len(tr) - 1))][0] + draw(st.integers(-21 * 86400, 21 * 86400)))
+        if 1902 <= w.year <= 2100:
+            y, m, d = w.year, w.month, w.day
     steps = draw(st.one_of(st.integers(0, 5), st.integers(0, 60), st.integers(0, max_steps)))
     if unit in ("years", "months"):
         steps = min(steps, 7000 if unit == "years" else 60000)
     return {"unit": unit, "n": draw(st.integers(1, 12)), "steps": steps, "date": isdate, "start": [y, m, d, draw(st.integers(0, 23)), draw(st.integers(0, 59)),
-            draw(st.integers(0, 59)), draw(st.sampled_from([0, 0, 1, 999999]))], "zone": draw(st.sampled_from(ZONES)), "sign": draw(st.sampled_from([1, 1, -1])),
+            draw(st.integers(0, 59)), draw(st.sampled_from([0, 0, 1, 999999]))], "zone": zone, "sign": draw(st.sampled_from([1, 1, -1])),
             "absolute": draw(st.booleans()), "extra": draw(st.one_of(st.just(0), st.floats(0.01, 0.95))), "direct_iter": draw(st.booleans())}
 
 
 class Range(Sub):
     name = "range"
-    n = {"quick": 5000, "thorough": 80000}
+    n = {"quick": 12000, "thorough": 80000}
     shards = {"quick": 6, "thorough": 16}
-    rule = ("intervals forward / inverted / absolute x DateTime (7 zones, naive) / Date x 8 units x step 1..12 x 0..N steps (N = 2000 quick, 10^4 thorough), end exactly "
+    rule = ("intervals forward / inverted / absolute x DateTime (9 zones, naive) / Date x 8 units x step 1..12 x 0..N steps (N = 2000 quick, 10^4 thorough), end exactly "
             "reachable or strictly between two steps; non-trivial: month/year stepping from day >= 29, or inverted, or absolute, or the sequence crosses a UTC-offset change")
 
     def strategy(self, ctx):
@@ -85,8 +119,8 @@ class Range(Sub):
                 endp = endp.add(days=sgn * max(1, int(APPROX[unit] // 86400 * n * case["extra"]) - 1))
         except (OverflowError, ValueError):
             raise Skip("end outside years 1..9999")
-        if not 2 <= endp.year <= 9997:
-            raise Skip("end outside years 2..9997")
+        if not 2 <= endp.year <= 9998:
+            raise Skip("end outside years 2..9998 (aware arithmetic next to the representable limits is outside the asserted domain)")
         absolute = case["absolute"]
         iv = pendulum.interval(start, endp, absolute=absolute)
         s, e = iv.start, iv.end
@@ -119,9 +153,21 @@ class Range(Sub):
             unit=unit, n=n, produced=len(got), expected=len(exp),
             first_diff=next(((i, str(a), str(b)) for i, (a, b) in enumerate(zip(got, exp)) if key(a) != key(b)), None))
         req(all(type(x) is type(s) for x in got), "range() yields values of another type")
+        # independent model of 'start shifted by k*n units' (does not call add()): elapsed units move the instant, calendar units move the
+        # wall clock (day clamped to the month's length) and an aware result is the documented resolution of that wall time (post-transition side)
+        idx = range(len(got)) if len(got) <= 600 else sorted(set(list(range(200)) + list(range(len(got) - 200, len(got))) + list(range(0, len(got), 37))))
+        dirn = 1 if forward else -1
+        for j in idx:
+            mv = model_value(s, unit, dirn * j * n, z if not case["date"] else None, case["date"])
+            if mv is not None:
+                req(inst(got[j]) == mv, "range() value differs from the independently computed start shifted by k*n units", k=j, got=str(got[j]), start=str(s), unit=unit, n=n,
+                    expected_instant_us=mv)
         if got:
             req(key(got[0]) == key(s), "first value is not the start", got=str(got[0]))
         for a, b in zip(got, got[1:]):
+            if inst(a) == inst(b) and z and not case["date"] and unit in ("years", "months", "weeks", "days") and \
+                    any(t * US == inst(a) and ob - oa >= 86400 for t, oa, ob in T.transitions(z)):
+                raise Known("K-C19-1", "a calendar step that lands on a wholly skipped day yields the day after it twice")
             req((inst(a) < inst(b)) if forward else (inst(a) > inst(b)), "sequence is not strictly monotone in the interval's direction", a=str(a), b=str(b))
         # closed-form model for month/year stepping of naive/Date values: no clamping drift
         if unit in ("years", "months") and (case["date"] or not z) and got:
